@@ -212,7 +212,7 @@ def rand_type(rng, structs, enums, depth):
 def rand_params(rng):
     r = rng.random()
     u = {"p": "unit", "v": rng.choice(["V", "m/s^2", "deg C", ""])}
-    g = {"p": "range", "lo": rng.choice(["0", "-1.5", "-100", "1e-3"]), "hi": rng.choice(["1", "2.0", "1e3", "255"])}
+    g = {"p": "range", "lo": rng.choice(["0", "-1.5", "-100", "1e-3", "-3.3"]), "hi": rng.choice(["1", "2.0", "1e3", "255", "0.1", "4294967295"])}
     if r < 0.4:
         return []
     if r < 0.6:
